@@ -179,6 +179,7 @@ def gate_tables(tier):
                     fail('operator', f'{name}{vals} = {got!r}, reference {exp}')
     samples.append('GateType.operator: all 19 types, n-ary at arity 2..5')
 
+    skipped = []
     # 2./3. synthesis truth-table codes
     from cirbo.synthesis import circuit_search as cs
 
@@ -188,9 +189,13 @@ def gate_tables(tier):
         n_checked += 1
         if op.value != exp:
             fail('Operation', f'Operation.{op.name} = {op.value}, reference {exp}')
-    if len(cs._tt_to_gate_type) != 16:
+    tt2gt = getattr(cs, '_tt_to_gate_type', None)
+    if tt2gt is None:
+        skipped.append('circuit_search._tt_to_gate_type (private table not found)')
+        tt2gt = {}
+    elif len(tt2gt) != 16:
         fail('tt_to_gate_type', 'table does not have 16 entries')
-    for bits, gt in cs._tt_to_gate_type.items():
+    for bits, gt in tt2gt.items():
         s = ''.join(str(int(b)) for b in bits)
         exp = {'ALWAYS_FALSE': '0000', 'ALWAYS_TRUE': '1111'}.get(gt.name) or refsem.BIN_TT[gt.name]
         n_checked += 1
@@ -205,14 +210,18 @@ def gate_tables(tier):
     # 4. arithmetic gate codes
     from cirbo.synthesis.generation.arithmetics import _utils as au
 
-    if len(au.binary_tt_to_type) != 16:
+    b2t = getattr(au, 'binary_tt_to_type', None)
+    if b2t is None:
+        skipped.append('arithmetics._utils.binary_tt_to_type (table not found)')
+        b2t = {}
+    elif len(b2t) != 16:
         fail('binary_tt_to_type', 'table does not have 16 entries')
-    for s, gt in au.binary_tt_to_type.items():
+    for s, gt in b2t.items():
         exp = {'ALWAYS_FALSE': '0000', 'ALWAYS_TRUE': '1111'}.get(gt.name) or refsem.BIN_TT[gt.name]
         n_checked += 1
         if s != exp:
             fail('binary_tt_to_type', f'{s} -> {gt.name}, reference {exp}')
-    for s in au.binary_tt_to_type:
+    for s in sorted(refsem.BIN_TT.values()) + ['0000', '1111']:
         c = core.Circuit.bare_circuit(2)
         lab = au.add_gate_from_tt(c, '0', '1', s)
         c.set_outputs([lab])
@@ -226,6 +235,9 @@ def gate_tables(tier):
     from cirbo.minimization import subcircuit as sc
 
     for k in (2, 3):
+        if not hasattr(sc, '_generate_inputs_tt') or not hasattr(sc, '_PatternOperations'):
+            skipped.append('subcircuit._PatternOperations / _generate_inputs_tt (private helpers not found)')
+            break
         pats = sc._generate_inputs_tt(k)
         po = sc._PatternOperations(k)
         rows = 1 << k
@@ -300,8 +312,8 @@ def gate_tables(tier):
             if before != refsem.tt_rows(nl) or after != before:
                 fail('convert_gate', f'{name}{oplist}: table {before} -> {after}')
     samples.append('converters.convert_gate: every type on (0,1), (1,0), (0,0)')
-    return {'evaluations': n_checked, 'distinct_nontrivial': n_checked, 'exhaustive': True,
-            'samples': samples}
+    return {'evaluations': n_checked, 'distinct_nontrivial': n_checked, 'exhaustive': not skipped,
+            'samples': samples, 'skipped_private_parts': skipped}
 
 
 def oracle_selfcheck(tier):
